@@ -346,42 +346,56 @@ def _targets(case, n_t, n_x, closed, breaks_at_roots, need_level=None):
     return A, B
 
 
+def targets_for(case, max_aspect=32.0):
+    """-> (probe Live, test box, trial box, reason)"""
+    spec = case['spec']
+    probe = Live(spec)
+    g = get_geo(spec['curve'])
+    br = set(float(x) for x in g.breaks)
+    roots_at_breaks = [i for i, x in enumerate(probe.xs) if x in br and (0 < i < probe.n_x)]
+    if g.closed and probe.n_x > 0:
+        roots_at_breaks.append(probe.n_x)        # the seam point, seen from the left
+
+    def need_level(p, l):
+        i = (p % (probe.n_x * UU)) // UU
+        hx = (probe.xs[i + 1] - probe.xs[i]) / (1 << l)
+        ht_root = min(b - a for a, b in zip(probe.ts[:-1], probe.ts[1:]))
+        m = -1
+        while m < 10 and hx * hx / (ht_root / (1 << (m + 1))) <= max_aspect:
+            m += 1
+        return m
+    tg = _targets(case, probe.n_t, probe.n_x, probe.glued, roots_at_breaks if not g.circle else [], need_level)
+    if tg is None:
+        return probe, None, None, 'class_not_constructible_here'
+    A, B = tg
+    for bx in (A, B):
+        (t0, t1), (x0, x1) = probe.real_box(bx)
+        if (x1 - x0)**2 / (t1 - t0) > max_aspect * (1 + 1e-12):
+            return probe, None, None, 'aspect_above_32'
+    return probe, A, B, None
+
+
+def realise_boxes(spec, A, B):
+    """two boxes as coexisting leaves of one really bisected mesh -> (live, test, trial, reason)"""
+    same = A.key == B.key
+    overlap = (not same) and min(A.t1, B.t1) > max(A.t0, B.t0) and min(A.x1, B.x1) > max(A.x0, B.x0)
+    if overlap:
+        return None, None, None, 'boxes_overlap_cannot_coexist'
+    live, ok = mesh_with(spec, [A] if same else [A, B])
+    if not ok:
+        return None, None, None, 'targets_not_coexisting_leaves'
+    byk = live.leaf_by_key()
+    return live, byk[A.key], byk[B.key], None
+
+
 def realise(case, max_aspect=32.0):
     """-> (live, test, trial, reason).  test/trial are real elements (or DummyElements); reason is None on success"""
     spec = case['spec']
     if case['fam'] == 'target':
-        probe = Live(spec)
-        g = get_geo(spec['curve'])
-        br = set(float(x) for x in g.breaks)
-        roots_at_breaks = [i for i, x in enumerate(probe.xs) if x in br and (0 < i < probe.n_x)]
-        if g.closed and probe.n_x > 0:
-            roots_at_breaks.append(probe.n_x)        # the seam point, seen from the left
-        def need_level(p, l):
-            i = (p % (probe.n_x * UU)) // UU
-            hx = (probe.xs[i + 1] - probe.xs[i]) / (1 << l)
-            ht_root = min(b - a for a, b in zip(probe.ts[:-1], probe.ts[1:]))
-            m = -1
-            while m < 10 and hx * hx / (ht_root / (1 << (m + 1))) <= max_aspect:
-                m += 1
-            return m
-        tg = _targets(case, probe.n_t, probe.n_x, probe.glued, roots_at_breaks if not g.circle else [], need_level)
-        if tg is None:
-            return None, None, None, 'class_not_constructible_here'
-        A, B = tg
-        # aspect of the targets before building anything
-        for bx in (A, B):
-            (t0, t1), (x0, x1) = probe.real_box(bx)
-            if (x1 - x0)**2 / (t1 - t0) > max_aspect * (1 + 1e-12):
-                return None, None, None, 'aspect_above_32'
-        same = A.key == B.key
-        overlap = (not same) and min(A.t1, B.t1) > max(A.t0, B.t0) and min(A.x1, B.x1) > max(A.x0, B.x0)
-        if overlap:
-            return None, None, None, 'boxes_overlap_cannot_coexist'
-        live, ok = mesh_with(spec, [A] if same else [A, B])
-        if not ok:
-            return None, None, None, 'targets_not_coexisting_leaves'
-        byk = live.leaf_by_key()
-        return live, byk[A.key], byk[B.key], None
+        probe, A, B, reason = targets_for(case, max_aspect)
+        if reason:
+            return None, None, None, reason
+        return realise_boxes(spec, A, B)
     live = Live(spec)
     for op in case['ops']:
         apply_op(live, op, cap=300)
